@@ -306,6 +306,8 @@ def compare(cases, impl, model, project=None):
     """cases: list of (id, line, meta). Returns list of (id, first differing impl line, model line)."""
     diffs = []
     for cid, line, meta in cases:
+        if meta.get('oracle_only'):
+            continue            # outside what the model expresses (stated in DESIGN): decided by the oracle alone
         a = impl.get(cid, [])
         b = model.get(cid, [])
         if project:
